@@ -257,6 +257,7 @@ func calleePkgName(cc *ssa.CallCommon) (pkg, name string) {
 
 var forbiddenCalls = map[string]string{
 	"time.Now": "wall clock", "time.Since": "wall clock", "time.Until": "wall clock", "time.After": "timer", "time.Sleep": "timer", "time.Tick": "timer", "time.NewTimer": "timer", "time.NewTicker": "timer", "time.AfterFunc": "timer",
+	"context.WithTimeout": "wall-clock deadline", "context.WithDeadline": "wall-clock deadline", "context.WithTimeoutCause": "wall-clock deadline", "context.WithDeadlineCause": "wall-clock deadline",
 	"os.Getenv": "environment", "os.LookupEnv": "environment", "os.Environ": "environment", "os.Hostname": "environment", "os.Getpid": "environment", "os.Getwd": "environment", "os.ReadFile": "file system", "os.Open": "file system", "os.Stat": "file system",
 	"runtime.NumGoroutine": "runtime state", "runtime.NumCPU": "runtime state", "runtime.GOMAXPROCS": "runtime state", "runtime.ReadMemStats": "runtime state", "runtime.Caller": "runtime state", "runtime.Callers": "runtime state", "runtime.Stack": "runtime state",
 }
@@ -345,6 +346,10 @@ func lintDeterminism(c *Ctx, m *Model, g *Graph, fn *ssa.Function, total map[str
 					}
 				}
 				c.Violate("C10.D2", fk+"#"+full, p.Pos(in.Pos()), "call to "+full+" ("+why+") in the consensus closure; reached via "+g.PathTo(fn), nil)
+			}
+			// cancellation state of a context: set by the process (timeouts, shutdown), not by the block
+			if cc.IsInvoke() && (cc.Method.Name() == "Err" || cc.Method.Name() == "Done" || cc.Method.Name() == "Deadline") && cc.Method.Pkg() != nil && cc.Method.Pkg().Path() == "context" {
+				c.Violate("C10.D2", fk+"#context."+cc.Method.Name(), p.Pos(in.Pos()), "the cancellation state of a context (Context."+cc.Method.Name()+") is read in the consensus closure: it is set by timers and the host process, not by the block; reached via "+g.PathTo(fn), nil)
 			}
 			switch pkg {
 			case "math/rand", "math/rand/v2", "crypto/rand":
